@@ -788,3 +788,17 @@ for _p in ('C02', 'C03', 'C07'):
     PROPS[_p]['explanation'] = PROPS[_p]['explanation'] + _SKK_TEXT
     if 'by translation' not in PROPS[_p]['technique']:
         PROPS[_p]['technique'] = PROPS[_p]['technique'] + '; the constructors are additionally tied by translation (statements regenerated from the Go source on every run, proved to evaluate to the model)'
+
+# ---- the property theorems restated over the regenerated bodies (Tie/ClientProps.lean, Tie/CodecProps.lean)
+for _p, _m, _ths in (('C04', 'FluentVerif.Tie.ClientProps', ['FV.Tie.C04_Send_regenerated']),
+                     ('C05', 'FluentVerif.Tie.ClientProps', ['FV.Tie.C05_Handshake_regenerated']),
+                     ('C06', 'FluentVerif.Tie.ClientProps', ['FV.Tie.C06_Send_regenerated']),
+                     ('C09', 'FluentVerif.Tie.ClientProps', ['FV.Tie.C09_Send_regenerated']),
+                     ('C01', 'FluentVerif.Tie.CodecProps', ['FV.Tie.C01_Message_regenerated', 'FV.Tie.Message_dec_is_model']),
+                     ('C10', 'FluentVerif.Tie.CodecProps', ['FV.Tie.C10_Message_regenerated']),
+                     ('C13', 'FluentVerif.Tie.CodecProps', ['FV.Tie.C13_Message_regenerated']),
+                     ('C18', 'FluentVerif.Tie.CodecProps', ['FV.Tie.C18_Message_regenerated'])):
+    PROPS[_p]['lean_modules'] = PROPS[_p]['lean_modules'] + [_m]
+    PROPS[_p]['theorems'] = PROPS[_p]['theorems'] + _ths
+    PROPS[_p]['explanation'] = PROPS[_p]['explanation'] + (" The property theorem is also restated over the regenerated body itself (" + ', '.join(t.split('.')[-1] for t in _ths) +
+        "): the statement is about running what the translator read from the source on this run, with the model function eliminated by the T_is_model equalities.")
